@@ -68,7 +68,7 @@ theorem edge_nil_none (D : DateArgs) (names : List String) (a b : Nat) (h : name
   · cases ha : names[a]? <;> simp [edge, h, ha]
 
 /-- **`EdgesOK` for the built-in providers** (any list of names): the hypothesis of C02's composition theorems -/
-theorem builtin_edgesOK (D : DateArgs) (hcio : CioOK D) (names : List String) : EdgesOK C02.algT6 (edge D names []) := by
+theorem builtin_edgesOK (D : DateArgs) (hcio : CioOK D) (names : List String) : EdgesOK algT6 (edge D names []) := by
   have key : ∀ a b M, edge D names [] a b = some M → M3.det M.r ≠ 0 ∧ edge D names [] b a = none := by
     intro a b M h
     cases ha : names[a]? with
